@@ -32,6 +32,7 @@ import json
 import logging
 import os
 import re
+import shutil
 import subprocess
 import sys
 import traceback
@@ -620,6 +621,8 @@ def run_job(job, root):
         steps.append({'ev': 'sched', 'obs': dict(o, sched_run=True, sched_ok=s['ok'], err=s['err'], nodes=s['nodes'], jobs=s['jobs'])})
     engine.unload(base)
     dawgie.pl.scan.reset(base)
+    if not os.environ.get('VERIF_GATE_KEEP'):
+        shutil.rmtree(aedir, True)  # tens of thousands of files otherwise; VERIF_GATE_KEEP=1 keeps the trees
     return {'tid': job['id'], 'put': put, 'd': d, 'steps': steps}
 
 
